@@ -75,6 +75,9 @@ def targets(T: str) -> dict[str, tuple[dict[str, str], str, str, str]]:  # noqa:
     chain = {f"cp{T}/__init__.py": f"from ._b{T} import {B}\n", f"cp{T}/_b{T}.py": c, "__init__.py": f"from .cp{T} import {B}\n"}
     t["reexp_chain_via_pkg"] = (chain, f"from {PKG}.u{T} import {B}\n", B, f"a{T}.py")
     t["reexp_chain_via_sub"] = (chain, f"from {PKG}.u{T}.cp{T} import {B}\n", B, f"a{T}.py")
+    # a package path with a PRIVATE segment that is not the first one (naming conversion treats the underscore specially)
+    t["reexp_by_private_subpkg"] = ({f"_core{T}/__init__.py": f"from .engine{T} import {B}\n", f"_core{T}/engine{T}.py": c}, f"from {PKG}.u{T}._core{T} import {B}\n", B, f"a{T}.py")
+    t["lib_private_segment"] = ({}, "from concurrent.futures._base import Executor\n", "Executor", f"a{T}.py")
     t["private_not_reexported"] = ({f"_b{T}.py": c}, f"from ._b{T} import {B}\n", B, f"a{T}.py")
     t["private_class"] = ({f"b{T}.py": CLS.format(n="_" + B, T=T)}, f"from .b{T} import _{B}\n", f"_{B}", f"a{T}.py")
     t["nested_other_module"] = ({f"b{T}.py": f"class O{T}:\n    class I{T}:\n        def m{T}(self) -> int:\n            return 1\n"}, f"from .b{T} import O{T}\n", f"O{T}.I{T}", f"a{T}.py")
